@@ -1071,6 +1071,33 @@ def internal_names_schema(package="intnames"):
     return s
 
 
+def const_block_schema(package="constblk"):
+    """Levels that declare no encoded field but have an explicit, non-zero blockLength *in the schema itself*: groups whose
+    entries hold only constants (flat and nested), an empty group, followed by further groups and data, so that every
+    size and every later member depends on the block being stepped over.  The corpus has such groups only with the
+    computed block length 0 (`l2const`, `l2empty`), where a missing step is invisible (seeded change C05-6)."""
+    from . import refmodel
+    nid = _ids()
+    types = [std_header(), std_dimension(), std_vardata(), Type("K", "uint8", presence="constant", const="5")]
+    msgs = [
+        Message("tagged", 1, fields=[Field("seq", nid(), "uint32")],
+                groups=[Group("marks", nid(), block_length=8, fields=[Field("k", nid(), "K"), Field("k2", nid(), "K")]),
+                        Group("fills", nid(), fields=[Field("x", nid(), "uint16")]),
+                        Group("ebl", nid(), block_length=6),
+                        Group("outer", nid(), fields=[Field("y", nid(), "uint8")],
+                              groups=[Group("kin", nid(), block_length=3, fields=[Field("k", nid(), "K")]),
+                                      Group("after", nid(), fields=[Field("z", nid(), "uint8")])],
+                              data=[Data("od", nid(), "varDataEncoding")])],
+                data=[Data("note", nid(), "varDataEncoding")]),
+        Message("constMsg", 2, block_length=5, fields=[Field("k", nid(), "K")],
+                groups=[Group("g", nid(), block_length=2, fields=[Field("k", nid(), "K")])], data=[Data("d", nid(), "varDataEncoding")]),
+    ]
+    s = Schema(package, id=15, version=0, types=types, messages=msgs, description="constant-only levels with explicit block lengths", name=package)
+    refmodel.fix_offsets(s)
+    refmodel.fit_ids_to_header(s)
+    return s
+
+
 def package_name_clash_schemas():
     """Entities named like the schema itself (the `package` attribute, i.e. the top-level namespace of everything that is
     generated): a message, a nested group, a field and a <data> member in one schema; a public composite, its element
